@@ -30,7 +30,7 @@ MANIFEST = {
     "technique": "Lean 4 refinement proof (code encoder o describe_state = specification over objects) + ground-truth differential rig",
     "design_ref": "5/C09",
 }
-MODULES = ["PrimaiteModel.Props.C09", "PrimaiteModel.Props.C09Cfg"]
+MODULES = ["PrimaiteModel.Props.C09", "PrimaiteModel.Props.C09Cfg", "PrimaiteModel.Props.C09Health"]
 EXE = "drv_c02"
 
 
@@ -44,7 +44,9 @@ def chaos(game, rng: Rng) -> None:
         return
     health = [h for h in SoftwareHealthState if h.name != "FIXING"]  # FIXING is entered through fix() (it needs its countdown)
     nodes = list(game.simulation.network.nodes.values())
-    node = rng.choice(nodes)
+    watched = observed_hostnames(game)
+    pool = [n for n in nodes if n.config.hostname in watched]
+    node = rng.choice(pool) if pool and rng.chance(3, 4) else rng.choice(nodes)  # mostly nodes some agent observes
     k = rng.below(14)
     try:
         if k == 0 and node.services:
@@ -109,6 +111,16 @@ def chaos(game, rng: Rng) -> None:
                 d["*"] = d.get("*", 0) + rng.choice([1, 2, 6, 11])
     except Exception:  # noqa: BLE001 - a refused mutation is not an observation concern
         pass
+
+
+def observed_hostnames(game) -> set:
+    out = set()
+    for _name, agent in rig.agents_with_obs(game):
+        for _path, o in rig.walk(agent.observation_manager.obs):
+            w = getattr(o, "where", None)
+            if w is not None and len(list(w)) >= 3 and list(w)[:2] == ["network", "nodes"]:
+                out.add(list(w)[2])
+    return out
 
 
 def known_addresses(game) -> List[str]:
